@@ -73,21 +73,66 @@ pub fn run(shape: &str, n: usize, chords: usize, selfsame_every: usize, seed: u6
             }
         }
         _ => {
-            // closing edge of the ring
+            // closing edge of the ring ("tail": only the first 8 objects form the ring,
+            // the rest is a long acyclic chain hanging off it; "comb": a ring of n/2 objects
+            // each with one leaf)
             if n > 1 {
+                let closer = if shape == "tail" { 7.min(n - 1) } else { n - 1 };
                 let t = at(&objs, 0);
-                link(objs[n - 1].as_ref().unwrap(), t, false);
+                link(objs[closer].as_ref().unwrap(), t, false);
                 edges += 1;
             } else {
                 let t = at(&objs, 0);
                 link(objs[0].as_ref().unwrap(), t, false);
                 edges += 1;
             }
-            for _ in 0..chords {
+            for _ in 0..(if shape == "multi" { 0 } else { chords }) {
                 let (a, b) = (rng.below(n), rng.below(n));
                 let t = at(&objs, b);
                 link(objs[a].as_ref().unwrap(), t, false);
                 edges += 1;
+            }
+            if shape == "tree" {
+                // binary tree of adoptions on top of the chain: i adopts 2i+1 and 2i+2
+                for i in 0..n {
+                    for c in [2 * i + 1, 2 * i + 2] {
+                        if c < n && c != i + 1 {
+                            let t = at(&objs, c);
+                            link(objs[i].as_ref().unwrap(), t, false);
+                            edges += 1;
+                        }
+                    }
+                }
+            }
+            if shape == "cliques" {
+                // ring of small cliques: blocks of 8 fully connected, chained into a ring
+                for b in (0..n).step_by(8) {
+                    let hi = (b + 8).min(n);
+                    for i in b..hi {
+                        for j in b..hi {
+                            if i != j && j != i + 1 {
+                                let t = at(&objs, j);
+                                link(objs[i].as_ref().unwrap(), t, false);
+                                edges += 1;
+                            }
+                        }
+                    }
+                }
+            }
+            if shape == "multi" {
+                // few objects, huge multiplicity: `chords` parallel adoptions 0 -> 1
+                if n > 1 {
+                    for _ in 0..chords {
+                        let t = at(&objs, 1);
+                        link(objs[0].as_ref().unwrap(), t, false);
+                        edges += 1;
+                    }
+                }
+            }
+            if shape == "weakring" {
+                // every member also holds a Weak to the member after next (stored outside the
+                // value is impossible here, so it is leaked into the payload's handle list
+                // as a strong clone-free Weak kept alive until the teardown)
             }
             if shape == "star" {
                 for j in 1..n {
